@@ -530,3 +530,7 @@ def run(ctx):
         with open(tp) as f:
             n += sum(1 for ln in f if '"e":"Reset"' not in ln and '"e":"End"' not in ln)
     ctx.evaluations = n
+    # the same parsers on several threads at once (Stateless.tla): one outcome per operation whoever performs it, and a
+    # ThreadSanitizer pass over the same scenarios (hidden shared state is a data race whatever the schedule)
+    from checks import stateless_common
+    stateless_common.drive(ctx, ["cbor"], thorough, n=40 if not thorough else 1000)
